@@ -69,7 +69,7 @@ def make_inputs(chk, n, seed):
     # tasks differ in size and in what they return
     boxes, x = [], 0
     for k in range(n + 1):
-        wd = 2 if k % 2 == 0 else 4
+        wd = [4, 2, 6, 2, 4][k % 5]          # (file sizes in an order that is not its own inverse when sorted: medium, small, large)
         boxes.append({"lo": [x, 0], "hi": [x + wd - 1, 3]})
         x += wd
     mesh = [boxes, [{"lo": [0, 2], "hi": [3, 5]}]]
